@@ -118,11 +118,15 @@ def gen_case(rng):
 def boundary_cases(rng, thorough=False):
     """composite components around the unsigned-short limit; single huge component"""
     out = []
-    for ln in ((65535, 65536) if thorough else ()):
+    # every tier: component lengths around the SIGNED and the unsigned 16-bit limits (the length prefix is an unsigned short);
+    # constant filler, so the Gallina literal is a run-length `repeat`
+    for ln in (32767, 32768, 40000, 65535, 65536):
         big = ('bytes', [rng.randrange(256)] * ln)
-        out.append({'names': [1, 2], 'types': ['blob', 'int'], 'server_pk': [1, 0], 'table_pk': None, 'pv': 4,
+        out.append({'names': [1, 2], 'types': ['blob', 'int'], 'server_pk': [1, 0], 'table_pk': None, 'pv': rng.choice([3, 4]),
                     'input': ('list', [big, ('int', 7)])})
-    if thorough:
+    out.append({'names': [3, 4], 'types': ['text', 'blob'], 'server_pk': [], 'table_pk': [3, 4], 'pv': 5,
+                'input': ('dict', [(4, ('bytes', [9] * 40000)), (3, ('str', [97] * 33000))])})
+    if True:
         out.append({'names': [1, 2], 'types': ['blob', 'int'], 'server_pk': [0], 'table_pk': None, 'pv': 3,
                     'input': ('dict', [(2, None), (1, ('bytes', [rng.randrange(256)] * 66000))])})
     out.append({'names': [1, 2, 3], 'types': ['int', 'int', 'int'], 'server_pk': [2], 'table_pk': None, 'pv': 3,
